@@ -188,9 +188,16 @@ def minimise(mod, scn: dict, viol: dict, budget_s: float = 60.0) -> tuple[dict, 
     if shrink is None:
         return best, best_v, best_out
     improved = True
+    def candidates(scenario):
+        # a shrinker that trips over an unusual scenario must not cost the report: stop shrinking, keep what we have
+        try:
+            yield from shrink(scenario)
+        except Exception:  # noqa: BLE001
+            return
+
     while improved and time.time() - t0 < budget_s:
         improved = False
-        for cand in shrink(best):
+        for cand in candidates(best):
             if time.time() - t0 > budget_s:
                 break
             out = run_one(mod, cand)
